@@ -85,7 +85,7 @@ Overlooked(c) ==
            /\ c.op \in {"Set", "SetIfEquals"} /\ PackedOnly(n) /\ IsStrictPrefix(tgt, n)
         \/ /\ "AddNoPackedProbe" \in Defects
            /\ c.op = "AddIfNew" /\ PackedOnly(n) /\ Collide(tgt, n)}
-Seen(c) == [n \in Names |-> IF n \in Overlooked(c) THEN Absent ELSE Eff[n]]
+Seen(c) == IF Defects = {} THEN Eff ELSE [n \in Names |-> IF n \in Overlooked(c) THEN Absent ELSE Eff[n]]
 
 PackedAncestor(n) == \E b \in Names : packed[b].k # "absent" /\ IsStrictPrefix(b, n)
 PackedConflict(n) == \E b \in Names : packed[b].k # "absent" /\ Collide(b, n)
@@ -170,9 +170,10 @@ Become(o, c) ==
 \* and tgt are bound by quantifiers over constant sets only so that TLC prints them there).
 ResultSet == {"True", "False", "None", "Refused", "NoEffect", "SymrefLoop"}
 Step(c, res, common, tgt) ==
-    LET o == Outcome(c) IN
-    /\ res = o.res /\ common = o.common /\ tgt = o.tgt
-    /\ Become(o, c)
+    /\ res = Apply(Seen(c), c).res          \* (cheap guards first: TLC tries every combination)
+    /\ tgt = Target(Eff, c)
+    /\ common = Common(Eff, c)
+    /\ Become(Outcome(c), c)
 DoCall == \E c \in Calls, res \in ResultSet, common \in BOOLEAN, tgt \in Names : Step(c, res, common, tgt)
 
 PackRefs(arg) ==      \* (a conjunction, so that the edge label is PackRefs(arg), not Become)
